@@ -312,6 +312,17 @@ func init() {
 				rec(strings.ReplaceAll(text, "{15", "{15\n"), 0, nil, io.EOF, "nil", nil)
 			}
 		}
+		// C04: every four-digit marker {0000}..{9999}, before a valid message, after it, and alone
+		if small := texts["fedWireMessage-BankTransfer.txt"]; small != "" {
+			for n := 0; n < 10000; n++ {
+				mk := fmt.Sprintf("{%04d}", n)
+				rec(mk+"ANYTHING*\n"+small, 0, nil, io.EOF, "nil", nil)
+				if n%7 == 0 || thorough {
+					rec(mk+"ANYTHING*", 0, nil, io.EOF, "nil", nil)
+					rec(small+mk+"X*", 0, nil, io.EOF, "nil", &wire.ValidateOpts{SkipMandatoryIMAD: true, AllowMissingSenderSupplied: true})
+				}
+			}
+		}
 		// degenerate inputs
 		for _, t := range []string{"", "\n", "{", "{1500", "{1500}", "{1500}{1510}", "no markers at all", "{abcd}", "{12345}", "}{1500}", strings.Repeat("{1500}", 50)} {
 			for _, k := range []int{0, 1, 3} {
